@@ -18,9 +18,22 @@ Definition corR_storkey_in (h : R) : R :=
   (2 * (1 - h) * (1 + cos (Rpi2 * h) / 2) + 3 / Rpi2 * sin (Rpi2 * h)) / 3.
 Definition corR_storkey (h : R) : R := if Rlt_dec h 1 then corR_storkey_in h else 0.
 
+(* generalised covariances with a logarithm (logv = log term, 0 under the guards of the code) *)
+Definition corR_spline (ndim : Z) (r h logv : R) : R :=
+  if Z.eqb ndim 1 then 1/2 * (r * r) - (h * h) * (3/2 - ln 2 - logv)
+  else if Z.eqb ndim 2 then r * r - (h * h) * (1 - logv)
+  else 3/2 * (r * r) - (h * h) * (11/6 - ln 2 - logv).
+Definition corR_spline2 (h logv : R) : R := - (-(1/4) + (h * h) * (1 + (h * h) * (-(3/4) + logv))).
+(* on the sphere *)
+Definition corR_geometric_sph (rho alpha : R) : R := (1 - rho) / sqrt (1 - 2 * rho * cos alpha + rho * rho).
+Definition corR_exponential_sph (nu alpha : R) : R := exp (- (nu * alpha)).
+
 (* the real function of a structure of the executable model (same case analysis on the rational parameter) *)
-Definition cor_R (type : Z) (param : Q) (h : R) : option R :=
+Definition cor_R (type : Z) (param : Q) (ndim : Z) (field : Q) (h : R) : option R :=
   match type with
+  | 14%Z => Some (corR_spline ndim (Q2R field) h
+                    (if qltb field (1 # 10000) then 0 else if Rle_dec (Q2R (1 # 10000000000)) h then ln (h / Q2R field) else 0))
+  | 22%Z => Some (corR_spline2 h (if Rle_dec (Q2R (1 # 10000)) h then ln h else 0))
   | 1%Z => Some (corR_exponential h)
   | 3%Z => Some (corR_gaussian h)
   | 5%Z => Some (if Rlt_dec (Q2R (1 # 100000)) h then corR_sinc h else 1)
